@@ -38,7 +38,7 @@ type Res struct {
 	Msg  string       `json:"msg,omitempty"`
 }
 
-const Watchdog = 10 * time.Second
+const Watchdog = 60 * time.Second // generous: a busy machine must not look like a hang
 
 // Guard runs f under recover() and a watchdog.
 func Guard(f func() Res) (res Res) {
